@@ -448,3 +448,26 @@ Theorem C17_exact_step2_real : forall (tab_el tab_at tab_en : nametab) (check_fn
     attr_schema_location root_attrs o w = Val (r0, w') ->
   forall (f v : N) (r : cres), f_check RT w' f v = Val r -> (fst r = [] <-> ValidIn RT w' f v).
 Proof. exact Tree.CompatHistReal2.exact_step3_real. Qed.
+
+(* [F] non-vacuity of C17_exact_histories2_real on the real tables: new model; strict load of a first file (package Pkg with a
+   SYSTEM); strict load of a second file that MERGES (AR-PACKAGES / Pkg / ELEMENTS merged, an ECU-INSTANCE and a package Q imported);
+   duplicate.  Both loads lie outside Known_load, all four steps succeed (file ids 0 and 1, model 1; 2 models, 4 files) *)
+From AV Require Tree.CompatHistReal3.
+Theorem C17_histories2_example :
+  Tree.CompatHistReal3.rv2 = OK (Script2.VLoad 0 []) /\ Tree.CompatHistReal3.rv3 = OK (Script2.VLoad 1 []) /\
+  Tree.CompatHistReal3.rv4 = OK (Script2.V1 (Script.VModel 1)) /\
+  List.length (w_models Tree.CompatHistReal3.st4) = 2%nat /\ List.length (w_files Tree.CompatHistReal3.st4) = 4%nat.
+Proof. exact Tree.CompatHistReal3.ex3_results. Qed.
+Theorem C17_histories2_example_exact :
+  run_ops2 RT Hash.HashRealElement.tab_element Hash.HashRealAttr.tab_attr Hash.HashRealEnum.tab_enum Xml.ParserExamples.accept_all
+    Xml.ParserExamples.no_float Xml.RoundTripExamples.no_float_fmt 1048576 Tree.CompatHistReal3.c_index Tree.CompatHistReal3.c_defref
+    Tree.CompatHistReal3.c_schema []
+    [Tree.CompatHistReal3.o1; Tree.CompatHistReal3.o2; Tree.CompatHistReal3.o3; Tree.CompatHistReal3.o4] Inv.empty_world
+  = Val Tree.CompatHistReal3.st4 /\
+  Tree.CompatHist11.ok_ops3 RT Hash.HashRealElement.tab_element Hash.HashRealAttr.tab_attr Hash.HashRealEnum.tab_enum
+    Xml.ParserExamples.accept_all Xml.ParserExamples.no_float Xml.RoundTripExamples.no_float_fmt 1048576 Tree.CompatHistReal3.c_index
+    Tree.CompatHistReal3.c_defref Tree.CompatHistReal3.c_schema []
+    [Tree.CompatHistReal3.o1; Tree.CompatHistReal3.o2; Tree.CompatHistReal3.o3; Tree.CompatHistReal3.o4] Inv.empty_world /\
+  forall (f v : N) (r : cres), f_check RT Tree.CompatHistReal3.st4 f v = Val r ->
+    (fst r = [] <-> ValidIn RT Tree.CompatHistReal3.st4 f v).
+Proof. exact Tree.CompatHistReal3.hist3_real_example. Qed.
